@@ -35,6 +35,13 @@ def url_parts(url):
     return u.scheme, u.hostname, port, (u.path or "/")
 
 
+def url_parts_q(url):
+    """(scheme, host, port, request-target incl. query)"""
+    u = urlsplit(url)
+    port = u.port or (443 if u.scheme == "https" else 80)
+    return u.scheme, u.hostname, port, (u.path or "/") + (("?" + u.query) if u.query else "")
+
+
 class Profile:
     def __init__(self, marker, date, svc_url, server, n, date_style=0):
         self.marker = marker
